@@ -8,6 +8,7 @@ import GE.Model.SubExpr
 import GE.Model.TagGen
 import GE.Model.Group
 import GE.Model.PathAnalysis
+import GE.Model.BindingMap
 /-!
 Model driver: one request per line (`op TAB field…`), one answer line per request.
 Unknown ops answer `bad-op` (never defaulted).
@@ -82,6 +83,20 @@ def step (fs : List String) : String :=
       let sc := parseScopes scopes
       let items := (GE.TagGen.prepareAll sc cs 0).1
       esc (GE.Gen.spellStmts (GE.TagGen.selStmts items)) ++ "\t" ++ esc (GE.Gen.spellAll (GE.TagGen.selToks items 0))
+  | "bmc" :: ops =>
+    let parsed : List GE.BM.Op := ops.filterMap fun o =>
+      if o == "*" then some .disableAll
+      else if o.startsWith "a" then some (.add (o.drop 1).toString)
+      else if o.startsWith "d" then some (.disable (o.drop 1).toString)
+      else none
+    let adds := (GE.BM.addResults GE.BM.Collector.new parsed).map fun (_, r) =>
+      match r with | some n => toString n | none => "-"
+    let c := GE.BM.run parsed
+    let names := (parsed.filterMap fun o => match o with | .add f => some f | .disable f => some f | _ => none).eraseDups
+    let es := names.map fun k => ({ key := k.toList.map Char.toNat, code := k } : GE.Group.Entry)
+    let sorted := (GE.Group.ordered es).map (·.code)
+    let adv := sorted.filterMap fun k => (c.size k).map fun n => esc k ++ ":" ++ toString n
+    String.intercalate "," adds ++ "\t" ++ String.intercalate "," adv
   | "sort_keys" :: keys =>
     let es := keys.map fun k => ({ key := k.toList.map Char.toNat, code := k } : GE.Group.Entry)
     String.intercalate "\t" ((GE.Group.ordered es).map fun e => esc e.code)
